@@ -13,10 +13,18 @@ BINOPS = {1: '__add__', 2: '__sub__', 7: '__mul__', 8: '__floordiv__', 9: '__tru
           15: '__lt__', 16: '__le__', 17: '__gt__', 18: '__ge__', 19: '__cmp__'}
 UNOPS = {3: '__neg__', 4: '__pos__', 5: '__abs__', 6: '__bool__', 22: '__hash__'}
 
-def setup_class(cls_id, p, g, d):
+def setup_class(cls_id, p, g, d, integer=None):
     import_droop()
     from droop.options import Options
     from droop.values import fixed, guarded, rational
+    if cls_id == 0 and integer is not None:
+        # arithmetic=integer: the zero-place case whatever precision the caller asks for (integer = ('none',) or
+        # ('precision', N)); the case's p is 0
+        od = {'arithmetic': 'integer', 'display': d}
+        if integer[0] == 'precision':
+            od['precision'] = integer[1]
+        fixed.Fixed.initialize(Options(od))
+        return fixed.Fixed
     if cls_id == 0:
         o = Options({'arithmetic': 'fixed', 'precision': p, 'display': d})
         fixed.Fixed.initialize(o)
@@ -46,7 +54,7 @@ def show(V, r):
 
 def impl_eval(case):
     """case = dict(cls, p, g, d, op, rnd, A, B, C, rest) ; operands are ('i', n) | ('v', raw) | ('q', num, den)"""
-    V = setup_class(case['cls'], case['p'], case['g'], case['d'])
+    V = setup_class(case['cls'], case['p'], case['g'], case['d'], integer=case.get('integer'))
     def mk(o):
         if o[0] == 'i': return o[1]
         if o[0] == 'v': return V(o[1], True)
